@@ -138,19 +138,31 @@ const JSON_TOKENS: &[&str] = &[
     "\"\\ud83d\\ude00\"", "\"\\n\\u00e9\"", "-0", "1E-2",
 ];
 
+/// number grammar: every text over these symbols up to the length bound, alone and as an element
+const NUMBER_SYMBOLS: &[&str] = &["-", "0", "1", "9", ".", "e", "E", "+"];
+
 fn json_sweep(len: usize, sh: &util::Shard) -> Report {
+    json_sweep_over(JSON_TOKENS, len, 0, sh)
+}
+
+fn json_sweep_over(tokens: &[&str], len: usize, wrap: u8, sh: &util::Shard) -> Report {
     let mut rep = Report::new();
     let arena = Arena::new();
     let mut p = Program::new(&arena);
     let mut idx = 0u64;
     let mut since = 0;
-    util::for_each_seq(JSON_TOKENS.len(), len, |seq| {
+    util::for_each_seq(tokens.len(), len, |seq| {
         let mine = sh.mine(idx);
         idx += 1;
         if !mine {
             return;
         }
-        let text: String = seq.iter().map(|&i| JSON_TOKENS[i]).collect();
+        let text: String = seq.iter().map(|&i| tokens[i]).collect();
+        let text = match wrap {
+            1 => format!("[{text}]"),
+            2 => format!("{{\"k\": {text}, \"l\": [0, {text}]}}"),
+            _ => text,
+        };
         let model = refjson::parse(&text);
         let src = format!("std.parseJson({})", escape_str(&text));
         since += 1;
@@ -640,6 +652,21 @@ pub fn run(ctx: &Ctx) -> i32 {
     check_radix(ctx, &mut total);
     let cfg = util::ForkCfg { threads: ctx.threads, mem_bytes: 4 << 30, case_timeout_s: 120, died_signature: "C20/abort".into(), resource_is_violation: false };
     let jl = if ctx.quick() { 3 } else { 5 };
+    {
+        let nl = if ctx.quick() { 5 } else { 7 };
+        let mut n = 0u64;
+        for len in 1..=nl {
+            for wrap in 0..3u8 {
+                if wrap > 0 && len > nl - 1 {
+                    continue;
+                }
+                let r = util::par_forked(&cfg, if len >= 5 { 128 } else { 16 }, |sh| json_sweep_over(NUMBER_SYMBOLS, len, wrap, sh));
+                n += r.states;
+                total.merge(r);
+            }
+        }
+        total.extra.insert("number_grammar_texts".into(), json!(n));
+    }
     for len in 1..=jl {
         let r = util::par_forked(&cfg, if len >= 4 { 512 } else { 64 }, |sh| json_sweep(len, sh));
         total.extra.insert(format!("json_token_sequences_len{len}"), json!(r.states));
